@@ -38,10 +38,23 @@ def fit_adversary(recs, res, exact, clause="OptimalObjective"):
         obs_units = (r["obj"] * r["den"]) // (r["num"] * vlib.UNIT if hasattr(vlib, "UNIT") else r["num"] * 10000)
         a["acccap"] = maxf + max(0, obs_units) + 1
         a["maxslack"] = 0
+        a["prodcap"] = -1
         adv.append(a)
         res.count_class("adversary_optimality_runs")
     wit = P.adversary("Adv_Fit", adv, res)
     byid = {r["id"]: r for r in recs}
+    # second pass for witnesses on cyclic inputs: does the witness survive the code's own product bound k * max f ?
+    # (decided by TLC; the answer is recorded on the violation so that the known finding is matched narrowly)
+    again = []
+    for a in adv:
+        if a["id"] in wit and a["cls"].endswith("Cycles"):
+            b = dict(a)
+            vals = [x for x in (a["nw"] if a["mode"] == "node" else a["ew"]) if x != vlib.NONE]
+            b["prodcap"] = a["k"] * (max(vals) if vals else 0)
+            again.append(b)
+    wit2 = P.adversary("Adv_Fit", again, res) if again else {}
+    for b in again:
+        byid[b["id"]]["needs_product_above_k_maxf"] = b["id"] not in wit2
     for a in adv:
         bad = a["id"] in wit
         res.clause(clause, 1, 1 if bad else 0)
